@@ -65,11 +65,13 @@ impl Spanned for Call {
 impl ToInternedString for Call {
     #[inline]
     fn to_interned_string(&self, interner: &Interner) -> String {
-        format!(
-            "{}({})",
-            self.function.to_interned_string(interner),
-            join_nodes(interner, &self.args)
-        )
+        let function = self.function.to_interned_string(interner);
+        // NOTE: `async(...)` reads as the head of an async arrow function; `(async)(...)` is the
+        //       call of a function that is named `async`.
+        if function == "async" {
+            return format!("({function})({})", join_nodes(interner, &self.args));
+        }
+        format!("{function}({})", join_nodes(interner, &self.args))
     }
 }
 
